@@ -4,7 +4,7 @@
 # named checks of the mirror against the mirror repo.
 # usage: tools/mirror_seed.sh <patch.diff|-> <Cnn> [...]      ("-" = no patch: clean run)
 set -e
-M=/var/tmp/mirror
+M=${MIRROR:-/var/tmp/mirror}
 patch="$1"; shift
 mkdir -p $M
 # the COMMITTED state of /verif (workers edit the working tree concurrently)
